@@ -1,0 +1,9 @@
+//go:build verif
+
+package method_evaluator
+
+import "ti/verifhook"
+
+func init() {
+	verifhook.Register("method_evaluator.dynamicStrategies", &dynamicStrategies)
+}
